@@ -119,6 +119,19 @@ package analyzer
 
 //@ trusted CollectPayees
 //@   ensures fresh(result) || len(result) == 0
+// What CollectPayees computes (obligation of its body): every listed name is the payee (else the description) of a
+// transaction of the journal and is not empty; every transaction's name is listed; no name is listed twice.
+//@ bodycheck CollectPayees
+//@   props C16
+//@   requires journal != nil
+//@   ensures [C16:listed_names_exist] forall k int :: {result[k]} 0 <= k && k < len(result) ==> result[k] != "" && (exists i int :: {journal.Transactions[i]} 0 <= i && i < len(journal.Transactions) && payeeName(journal.Transactions[i]) == result[k])
+//@   ensures [C16:every_name_listed] forall i int :: {journal.Transactions[i]} 0 <= i && i < len(journal.Transactions) && payeeName(journal.Transactions[i]) != "" ==> (exists k int :: {result[k]} 0 <= k && k < len(result) && result[k] == payeeName(journal.Transactions[i]))
+//@   loop 1 invariant 0 - 1 <= rangeindex && rangeindex <= len(journal.Transactions) - 1 && seen != nil && fresh(seen) && (len(payees) == 0 || fresh(payees))
+//@   loop 1 invariant [C16:listed_names_exist] forall k int :: {payees[k]} 0 <= k && k < len(payees) ==> payees[k] != "" && seen[payees[k]] && (exists i int :: {journal.Transactions[i]} 0 <= i && i <= rangeindex && payeeName(journal.Transactions[i]) == payees[k])
+//@   loop 1 invariant [seen_is_listed] forall n string :: {seen[n]} seen[n] ==> (exists k int :: {payees[k]} 0 <= k && k < len(payees) && payees[k] == n)
+//@   loop 1 invariant [C16:every_name_listed] forall i int :: {journal.Transactions[i]} 0 <= i && i <= rangeindex && payeeName(journal.Transactions[i]) != "" ==> seen[payeeName(journal.Transactions[i])]
+//@   loop 1 exhaustive
+//@   loop 1 decreases len(journal.Transactions) - rangeindex
 //@ trusted CollectCommodities
 //@   ensures fresh(result) || len(result) == 0
 //@ trusted CollectTags
